@@ -27,8 +27,11 @@ type frame struct {
 	depth  int
 	id     string
 	seq    int // traversal order of the frame's creation
-	// mk: the MakeClosure instruction a closure frame was created at
-	mk *ssa.MakeClosure
+	// mk: the MakeClosure instruction whose bindings the frame's free variables
+	// take (the instruction a closure frame was created at, or the closure value a
+	// function-typed parameter resolved to); mkFr: the frame mk is evaluated in
+	mk   *ssa.MakeClosure
+	mkFr *frame
 }
 
 func (f *frame) String() string { return f.id }
@@ -58,6 +61,8 @@ type deepView struct {
 	// struct values to the value stored (off by default: most rules want to see
 	// the field that is read)
 	throughFields bool
+	// dyn: frames of calls of function values (no static callee), by call and calling frame
+	dyn map[ssa.CallInstruction]map[*frame]*frame
 }
 
 type dinstr struct {
@@ -94,6 +99,7 @@ func (d *deepView) closureFrame(fr *frame, at ssa.Instruction, cf *ssa.Function)
 	}
 	f := &frame{fn: cf, site: nil, parent: fr, depth: fr.depth, id: id}
 	f.mk, _ = at.(*ssa.MakeClosure)
+	f.mkFr = fr
 	d.frames[id] = f
 	return f
 }
@@ -164,10 +170,39 @@ func (d *deepView) walk(fr *frame, onStack map[*ssa.Function]bool) {
 			continue
 		}
 		callee := calleeOrClosure2(call)
-		if !d.inlinable(callee) || onStack[callee] {
+		var dynMk *ssa.MakeClosure
+		var dynFr *frame
+		if callee == nil && !call.Common().IsInvoke() {
+			// a call of a function value: a parameter (or local) that resolves to a
+			// function literal, a method value or a plain function in the view
+			if r := d.resolve(call.Common().Value, fr); r.v != nil {
+				switch x := ir.StripConv(r.v).(type) {
+				case *ssa.MakeClosure:
+					if cf, ok := x.Fn.(*ssa.Function); ok {
+						callee, dynMk, dynFr = cf, x, r.fr
+					}
+				case *ssa.Function:
+					callee = x
+				}
+			}
+			if callee != nil && (callee.Blocks == nil || callee.Synthetic == "" && !d.c.P.InLib(callee)) {
+				callee = nil
+			}
+		}
+		if callee == nil || onStack[callee] || dynMk == nil && !d.inlinable(callee) {
 			continue
 		}
 		child := d.childFrame(fr, call, callee)
+		if dynMk != nil {
+			child.mk, child.mkFr = dynMk, dynFr
+		}
+		if d.dyn == nil {
+			d.dyn = map[ssa.CallInstruction]map[*frame]*frame{}
+		}
+		if d.dyn[call] == nil {
+			d.dyn[call] = map[*frame]*frame{}
+		}
+		d.dyn[call][fr] = child
 		onStack[callee] = true
 		d.walk(child, onStack)
 		delete(onStack, callee)
@@ -215,7 +250,8 @@ func (d *deepView) each(f func(i ssa.Instruction, fr *frame, seq int)) {
 func (d *deepView) frameOfCall(fr *frame, call ssa.CallInstruction) *frame {
 	callee := calleeOrClosure2(call)
 	if callee == nil {
-		return nil
+		// calls of function values that the view resolved
+		return d.dyn[call][fr]
 	}
 	return d.frames[fmt.Sprintf("%s>%s@%d", fr.id, name(callee), ir.InstrPos(call))]
 }
@@ -258,8 +294,8 @@ func (d *deepView) resolve(v ssa.Value, fr *frame) dval {
 						idx = k
 					}
 				}
-				if idx >= 0 && idx < len(own.mk.Bindings) && own.parent != nil {
-					v, fr = own.mk.Bindings[idx], own.parent
+				if idx >= 0 && idx < len(own.mk.Bindings) && own.mkFr != nil {
+					v, fr = own.mk.Bindings[idx], own.mkFr
 					continue
 				}
 			}
